@@ -80,7 +80,8 @@ def perms {α : Type} : List α → List (List α)
     with one of them -/
 def stripAlternatives (fc : Facts) (x : Ext) (s : St) : J :=
   let s1 := stripPrepare s
-  let orders := (perms (stripCandidates s1)).take 24
+  -- since the repair of `stripOAIGen` (entries visited in descending key order) there is one order
+  let orders := [stripOrder s1]
   let enc := fun (r : St × Bool) => match encSt r.1 with
     | .obj kvs => J.obj (kvs ++ [("again", .bool r.2)])
     | j => j
